@@ -1,13 +1,40 @@
 """C14 — Every response carries the security headers of its most specific rule (CSP rule sets + nonce rewriting)."""
+import base64
 import itertools
+import os
 import re
+import urllib.parse
 
+import kv
 from kv import Case, xn, xb, xl, xlist, xparse, xtext
 
 ID = "C14"
 MODULE = "C14"
-IMPORTS = "Bytes RuleSetStd RuleSet Nonce RuleSetProofs NonceProofs"
+IMPORTS = "Bytes RuleSetStd RuleSet Nonce RuleSetProofs NonceProofs CspPolicyProofs"
 PROFILES = ("dev",)
+
+
+def default_server():
+    """the value Extensions::new() configures: kvarn::extensions::SERVER_NAME_VERSION, read from the source"""
+    try:
+        src = open(os.path.join(kv.REPO, "src", "extensions.rs"), encoding="utf-8", errors="replace").read()
+        m = re.search(r'pub const SERVER_NAME_VERSION: &str = "([^"]*)";', src)
+        if m:
+            return m.group(1).encode()
+        ver = re.search(r'^version = "([^"]*)"', open(os.path.join(kv.REPO, "Cargo.toml")).read(), re.M)
+        return b"Kvarn/" + ver.group(1).encode()
+    except OSError:
+        return b"Kvarn/0.6.2"
+
+
+DEFAULT_SERVER = default_server()
+
+
+def x_cfg(base=1, flags=7, platform=0, override=1, mount=0, h2=0):
+    return xl(xn(base), xn(flags), xn(platform), xn(override), xn(mount), xn(h2))
+
+
+CFG_NEW_AS_IS = x_cfg(0, 7, 0, 1, 0)
 
 # ------------------------------------------------------------------------------------------------
 # RuleSet
@@ -124,9 +151,18 @@ IN_HEADERS = [(b"referrer-policy", b"same-origin"), (b"referrer-policy", b"origi
               (b"x-other", b"1"), (b"csp-nonce", b"second")]
 
 
-def pkg_case(adds, path, hs, server, kind):
-    x = xl(x_adds(adds), xb(path), xlist([xl(xb(n), xb(v)) for n, v in hs]), xb(server))
-    return Case("csp.package", x, "csp.package_spec", {"kind": kind})
+def pkg_case(adds, path, hs, server, kind, cfg=None, spec=True):
+    items = [x_adds(adds), xb(path), xlist([xl(xb(n), xb(v)) for n, v in hs]), xb(server)]
+    if cfg is not None:
+        items.append(cfg)
+    return Case("csp.package", xl(*items), "csp.package_spec" if spec else None, {"kind": kind})
+
+
+PKG_PATHS = [b"/p", b"/pp", b"/q", b"/", b"/a/b", b"/a/c", b"/zzz"]
+# the same files spelled otherwise: percent escapes (either case, of '/', of a pattern byte), repeated slashes,
+# escapes that do not decode (%zz, a lone %), bytes that are not UTF-8 once decoded (the text itself is used)
+PKG_PATHS_ENC = [b"/%70", b"/%70p", b"/p%70", b"/a%2Fb", b"/a%2fb", b"/%61/b", b"/a//b", b"/a/%62", b"/a///c", b"/%2F", b"/a/b%2A",
+                 b"/%zz", b"/a/%", b"/a/%ff", b"/%c3%a5", b"/a/b%20", b"/%2561/b"]
 
 
 def gen_package(rng, tier):
@@ -136,20 +172,40 @@ def gen_package(rng, tier):
     cases.append(pkg_case([(b"/a", DEFAULT_RULE)], b"/b", [(b"csp-nonce", NONCES[0])], b"Kvarn/0.6.2", "pkg-corpus"))
     cases.append(pkg_case([(b"/*", EMPTY_RULE)], b"/b", [(b"csp-nonce", NONCES[0])], b"S", "pkg-corpus"))
     cases.append(pkg_case([(b"/*", EMPTY_RULE)], b"/b", [(b"content-security-policy", b"x")], b"S", "pkg-corpus"))
+    # the rule of the path the file is read from (fix 4935bb0): strict rule for /uc/*, lax default
+    strict = rule([(10, [b"'none'"]), (18, [b"allow-forms"])])
+    for path in (b"/uc/evil.html", b"/%75c/evil.html", b"/uc%2Fevil.html", b"/uc//evil.html", b"/%75%63/evil.html"):
+        cases.append(pkg_case([(b"/*", DEFAULT_RULE), (b"/uc/*", strict)], path, [], b"S", "pkg-corpus"))
+    # Extensions::new() as it is: its own server value and its default rule set
+    for path in (b"/", b"/index.html", b"/a/b"):
+        for hs in ([], [(b"csp-nonce", NONCES[0])], [(b"server", b"Upstream/1"), (b"referrer-policy", b"origin")]):
+            cases.append(pkg_case([(b"/*", DEFAULT_RULE)], path, hs, DEFAULT_SERVER, "pkg-new-as-is", CFG_NEW_AS_IS))
+    # every flag combination of with_server_header
+    for platform in (0, 1):
+        for override in (0, 1):
+            for hs in ([], [(b"server", b"Upstream/1")], [(b"server", b"a"), (b"server", b"b"), (b"csp-nonce", NONCES[0])]):
+                cases.append(pkg_case([(b"/*", DEFAULT_RULE)], b"/x", hs, b"Kvarn/9", "pkg-server-flags", x_cfg(1, 7, platform, override)))
+    # Extensions::empty() + every subset of the three Package extensions (model against implementation only)
+    for flags in range(8):
+        for hs in ([], [(b"csp-nonce", NONCES[0]), (b"server", b"Upstream/1")]):
+            cases.append(pkg_case([(b"/*", DEFAULT_RULE)], b"/x", hs, b"S", "pkg-subsets", x_cfg(2, flags, 0, 1), spec=(flags == 7)))
     # every directive alone, with and without nonce
     for i in range(27):
         for hs in ([], [(b"csp-nonce", NONCES[0])]):
             cases.append(pkg_case([(b"/*", rule([(i, [b"'self'", b"https:"])]))], b"/x", hs, b"S", "pkg-directive"))
     for _ in range(600 if tier == "quick" else 20000):
         adds = rand_adds(rng)
-        path = rng.choice([b"/p", b"/pp", b"/q", b"/", b"/a/b", b"/a/c", b"/zzz"])
+        path = rng.choice(PKG_PATHS) if rng.random() < 0.7 else rng.choice(PKG_PATHS_ENC)
         hs = []
         if rng.random() < 0.6:
             hs.append((b"csp-nonce", rng.choice(NONCES) if rng.random() < 0.6 else NONCES[0]))
         for _ in range(rng.choice([0, 0, 1, 2, 3])):
             hs.append(rng.choice(IN_HEADERS))
         rng.shuffle(hs)
-        cases.append(pkg_case(adds, path, hs, rng.choice([b"Kvarn/0.6.2", b"S", b"x y"]), "pkg-random"))
+        cfg = None
+        if rng.random() < 0.3:
+            cfg = x_cfg(1, 7, rng.randrange(2), rng.randrange(2))
+        cases.append(pkg_case(adds, path, hs, rng.choice([b"Kvarn/0.6.2", b"S", b"x y"]), "pkg-random", cfg))
     return cases
 
 
@@ -214,6 +270,14 @@ def gen_nonce(rng, tier):
     for n in range(0, maxlen + 1):
         for toks in itertools.product(TOKENS, repeat=n):
             cases.append(page_case(b"".join(toks), 1, 1, dflt, b"S", "page-exhaustive"))
+    # large bodies: a rewriter that looks only at the head of the document (first 64 KiB, a bounded number of
+    # attributes) is caught here: attributes at and around offset 65536, at the very end, and many of them
+    filler = b"<p>lorem ipsum dolor</p>\n"
+    big = filler * (65536 // len(filler) + 1)
+    for off in (65535 - 14, 65536 - 14, 65536, 65537):
+        cases.append(page_case(big[:off] + b'<script nonce="old">x</script>', 1, 1, dflt, b"S", "page-large"))
+    cases.append(page_case(b'<script nonce="first">' + big[:70000] + b"<style nonce='last'>" + b"y" * 100, 1, 1, dflt, b"S", "page-large"))
+    cases.append(page_case(b'<i nonce="v">' * (300 if tier == "quick" else 3000) + b"end", 1, 1, dflt, b"S", "page-large"))
     # random longer token strings, biased towards attributes
     toks2 = TOKENS + [b"nonce=", b'nonce="', b"nonce='", b'"', b"<script ", b"nonce", b"=", b"a" * 30]
     for _ in range(900 if tier == "quick" else 30000):
@@ -227,22 +291,68 @@ def gen_nonce(rng, tier):
 
 
 # ------------------------------------------------------------------------------------------------
+# nonce.line: pages whose first line has several Present directives (kvarn_extensions mounted)
+# ------------------------------------------------------------------------------------------------
+DIRECTIVES = [(b"nonce", []), (b"cache", [b"server:full"]), (b"cache", [b"server:none"]), (b"cache", [b"server:query_matters"]),
+              (b"cache", [b"server:60s"]), (b"cache", [b"server:0s"]), (b"cache", [b"client:full"]), (b"cache", [b"client:none", b"server:full"]),
+              (b"cache", [b"server:full", b"server:bogus"]), (b"cache", [b"server:full:x"]), (b"cache", [b"server:"]), (b"cache", [b"bogus"]),
+              (b"cache", []), (b"allow-ips", [b"127.0.0.1"]), (b"allow-ips", [b"10.0.0.1"]), (b"allow-ips", [b"10.0.0.1", b"127.0.0.1"]),
+              (b"allow-ips", []), (b"hide", []), (b"download", []), (b"unknown-ext", [b"arg"])]
+
+
+def x_line(ds):
+    return xlist([xl(xb(n), xlist([xb(a) for a in args])) for n, args in ds])
+
+
+def line_case(body, ds, pref, nreq, kind):
+    x = xl(xb(body), x_line(ds), xn(pref), xn(nreq), x_cfg(0, 7, 0, 1, 1), xb(DEFAULT_SERVER))
+    return Case("nonce.line", x, None, {"kind": kind})
+
+
+def gen_line(rng, tier):
+    cases = []
+    doc = b'<script nonce="old">a()</script><style nonce=\'\'>p{}</style>'
+    nonce, full = (b"nonce", []), (b"cache", [b"server:full"])
+    # the defect repaired by 557c6d6 first
+    for ds in ([nonce, full], [full, nonce], [nonce, (b"cache", [b"server:60s"])], [nonce, (b"cache", [b"server:query_matters"])],
+               [(b"allow-ips", [b"127.0.0.1"]), nonce, full], [nonce, (b"allow-ips", [b"127.0.0.1"]), full], [nonce, nonce, full],
+               [nonce, (b"hide", []), full], [nonce, (b"allow-ips", [b"10.0.0.1"]), full], [(b"hide", []), nonce, full], [nonce]):
+        for pref in (0, 1, 3):
+            cases.append(line_case(doc, ds, pref, 3, "line-corpus"))
+    # every pair and triple that contains nonce (quick: pairs)
+    for d in DIRECTIVES:
+        cases.append(line_case(doc, [nonce, d], 1, 3, "line-pairs"))
+        cases.append(line_case(doc, [d, nonce], 1, 3, "line-pairs"))
+        cases.append(line_case(doc, [d], rng.choice([0, 1, 2, 3]), 3, "line-pairs"))
+    # many responses of one page: no value may come twice, every bit of the 16 bytes must vary
+    cases.append(line_case(doc, [nonce], 1, 64, "line-many"))
+    cases.append(line_case(doc, [nonce, full], 1, 64, "line-many"))
+    for _ in range(150 if tier == "quick" else 6000):
+        n = rng.randrange(1, 5)
+        ds = [rng.choice(DIRECTIVES) if rng.random() < 0.7 else nonce for _ in range(n)]
+        body = doc if rng.random() < 0.6 else rng.choice(DOCS)
+        cases.append(line_case(body, ds, rng.choice([0, 1, 1, 2, 3]), rng.choice([2, 3, 4]), "line-random"))
+    return cases
+
+
+# ------------------------------------------------------------------------------------------------
 # c14.conn: the send path over a loopback connection (kvarn::handle_connection)
 # ------------------------------------------------------------------------------------------------
 GET, HEAD, POST = 0, 1, 2
 NONCE_DOC = b'<script nonce="old">a()</script><style nonce=\'\'>p{}</style><a href="?nonce=1">l</a>'
 
 
-def conn_handler(path, status, hs, cache, nonce, body):
-    return xl(xb(path), xn(status), xlist([xl(xb(n), xb(v)) for n, v in hs]), xn(cache), xn(nonce), xb(body))
+def conn_handler(path, status, hs, cache, line, body, fs=0):
+    lx = xn(line) if isinstance(line, int) else x_line(line)
+    return xl(xb(path), xn(status), xlist([xl(xb(n), xb(v)) for n, v in hs]), xn(cache), lx, xb(body), xn(fs))
 
 
-def conn_req(method, path, rng_kind=0, ims=0):
-    return xl(xn(method), xb(path), xn(rng_kind), xn(ims))
+def conn_req(method, path, rng_kind=0, ims=0, enc=0):
+    return xl(xn(method), xb(path), xn(rng_kind), xn(ims), xn(enc))
 
 
-def conn_case(adds, server, handlers, reqs, kind):
-    x = xl(x_adds(adds), xb(server), xlist(handlers), xlist(reqs))
+def conn_case(adds, server, handlers, reqs, kind, cfg=None):
+    x = xl(x_adds(adds), xb(server), xlist(handlers), xlist(reqs), cfg if cfg is not None else x_cfg(1, 7, 0, 1, 0))
     return Case("c14.conn", x, "c14.conn_spec", {"kind": kind})
 
 
@@ -262,6 +372,28 @@ CONN_HANDLERS = [
 CONN_PATHS = [h[0] for h in CONN_HANDLERS] + [b"/", b"/a/", b"/none", b"/a/none", b"/./p", b"/a/./b", b"/p."]
 CONN_PATTERNS = [b"/*", b"/p", b"/p*", b"/a/*", b"/a/b", b"/a/b*", b"/n", b"/n*", b"/index.html", b"/e*", b"/", b"/a/index.html", b"/none*",
                  b"/./*", b"/a*", b"*", b"/q"]
+# with kvarn_extensions mounted and files: handlers whose first line has several directives, files of a directory
+NONCE_FULL = [(b"nonce", []), (b"cache", [b"server:full"])]
+LINE_HANDLERS = [
+    (b"/l1", 200, [], 1, NONCE_FULL, NONCE_DOC),
+    (b"/l2", 200, [], 0, [(b"cache", [b"server:full"]), (b"nonce", [])], b"<script nonce='x'>l2</script>"),
+    (b"/l3", 200, [], 1, [(b"allow-ips", [b"127.0.0.1"]), (b"nonce", []), (b"cache", [b"server:60s"])], b"<script nonce='x'>l3</script>"),
+    (b"/l4", 200, [], 1, [(b"nonce", []), (b"hide", []), (b"cache", [b"server:full"])], b"<script nonce='x'>l4</script>"),
+    (b"/l5", 200, [], 1, [(b"allow-ips", [b"10.0.0.1"]), (b"cache", [b"server:full"])], b"only for 10.0.0.1"),
+    (b"/l6", 200, [], 0, [(b"cache", [b"server:full"])], b"cached by its line"),
+]
+BIG_NONCE_DOC = b'<script nonce="first">1</script>' + b"<p>filler paragraph</p>\n" * 3000 + b"<style nonce='last'>p{}</style>"
+FILES = [
+    (b"/f.html", 1, b"<script nonce='x'>file</script>" + b" " * 300),
+    (b"/d/n.html", NONCE_FULL, NONCE_DOC + b"<!-- file in a directory -->" * 10),
+    (b"/d/plain.html", 0, b"<script>plain()</script>" * 10),
+    (b"/d/index.html", 0, b"<html>d index</html>"),
+    (b"/uc/evil.html", 0, b"<script>alert(1)</script>"),
+    (b"/big.html", 1, BIG_NONCE_DOC),
+]
+FILE_PATHS = [f[0] for f in FILES] + [b"/%66.html", b"/d%2Fn.html", b"/d//n.html", b"/%64/n.html", b"/d/", b"/d%2F", b"/%75c/evil.html", b"/uc%2fevil.html",
+                                       b"/uc//evil.html", b"/d/missing.html", b"/%ff.html", b"/d/plain.html/", b"/f.html%00", b"/d/%2e/n.html", b"//d/n.html"]
+FILE_PATTERNS = [b"/*", b"/d/*", b"/uc/*", b"/f.html", b"/d/n.html", b"/%66.html", b"/d*", b"/d/index.html", b"/big.html"]
 
 
 def all_kinds_reqs(path):
@@ -283,6 +415,40 @@ def gen_conn(rng, tier):
     # the re-add witness through the whole server
     cases.append(conn_case([(b"/p", rule([(10, [b"'none'"])])), (b"/pp", DEFAULT_RULE), (b"/ppp", DEFAULT_RULE), (b"/p", rule([(11, [b"https:"])]))],
                            b"S", hs_all, all_kinds_reqs(b"/p"), "conn-kinds"))
+    # Extensions::new() as it is (its own server header and rule set), every kind of response
+    for path in (b"/p", b"/n", b"/e", b"/none", b"/./p", b"/"):
+        cases.append(conn_case(dflt, DEFAULT_SERVER, hs_all, all_kinds_reqs(path), "conn-new-as-is", CFG_NEW_AS_IS))
+    # flags of with_server_header through the server
+    for platform, override in ((1, 1), (0, 0), (1, 0)):
+        cases.append(conn_case(dflt, b"Kvarn/9", hs_all, all_kinds_reqs(b"/g") + all_kinds_reqs(b"/p"), "conn-server-flags", x_cfg(1, 7, platform, override, 0)))
+    # compression: the nonce page, a cached page and an error, with each coding
+    for enc in (1, 2, 3):
+        reqs = [conn_req(GET, b"/n", 0, 0, enc), conn_req(GET, b"/n", 0, 0, 0), conn_req(GET, b"/q", 0, 0, enc), conn_req(GET, b"/q", 0, 0, enc),
+                conn_req(GET, b"/p", 0, 0, enc), conn_req(GET, b"/p", 0, 0, enc), conn_req(HEAD, b"/n", 0, 0, enc), conn_req(GET, b"/none", 0, 0, enc),
+                conn_req(GET, b"/p", 0, 1, enc)]
+        cases.append(conn_case(layered, b"S", hs_all, reqs, "conn-compression"))
+    # lines of several directives (kvarn_extensions mounted) and files of a directory
+    lh = [conn_handler(*h) for h in LINE_HANDLERS]
+    fh = [conn_handler(p, 200, [], 1, line, body, 1) for p, line, body in FILES]
+    strict = [(b"/*", DEFAULT_RULE), (b"/uc/*", rule([(10, [b"'none'"]), (18, [b"allow-forms"])])), (b"/d/n.html", rule([(13, [b"'self'"])]))]
+    mount = x_cfg(1, 7, 0, 1, 1)
+    for h in LINE_HANDLERS:
+        cases.append(conn_case(dflt, b"S", hs_all + lh, [conn_req(GET, h[0])] * 3 + [conn_req(HEAD, h[0]), conn_req(GET, h[0], 1), conn_req(GET, h[0], 0, 1)], "conn-lines", mount))
+    for path in FILE_PATHS:
+        small = [f for f in fh[:-1]] if path != b"/big.html" else fh
+        cases.append(conn_case(strict, b"S", hs_all[:3] + small, [conn_req(GET, path), conn_req(GET, path), conn_req(GET, path, 0, 1), conn_req(GET, path, 1),
+                                                                    conn_req(HEAD, path), conn_req(POST, path), conn_req(GET, path, 0, 0, 1)], "conn-files", mount))
+    cases.append(conn_case(dflt, DEFAULT_SERVER, hs_all[:3] + fh[:-1], [conn_req(GET, p) for p in (b"/f.html", b"/d/n.html", b"/d/n.html", b"/%64/n.html", b"/d/")],
+                           "conn-files", x_cfg(0, 7, 0, 1, 1)))
+    # the same over TLS + HTTP/2 (one connection, one stream per request): every kind of response, lines, files
+    h2 = x_cfg(1, 7, 0, 1, 1, 1)
+    for path in (b"/p", b"/n", b"/e", b"/f", b"/none", b"/./p", b"/a/"):
+        cases.append(conn_case(layered, b"S", hs_all, all_kinds_reqs(path), "conn-h2", h2))
+    cases.append(conn_case(dflt, DEFAULT_SERVER, hs_all, all_kinds_reqs(b"/n") + all_kinds_reqs(b"/"), "conn-h2", x_cfg(0, 7, 0, 1, 0, 1)))
+    cases.append(conn_case(strict, b"S", hs_all[:3] + lh + fh[:-1],
+                           [conn_req(GET, p) for p in (b"/l1", b"/l1", b"/l3", b"/f.html", b"/d/n.html", b"/d/n.html", b"/%75c/evil.html", b"/d//n.html", b"/d/")]
+                           + [conn_req(GET, b"/f.html", 0, 0, e) for e in (1, 2, 3)] + [conn_req(POST, b"/f.html"), conn_req(HEAD, b"/d/n.html")], "conn-h2", h2))
+    cases.append(conn_case(strict, b"S", hs_all[:3] + fh, [conn_req(GET, b"/big.html"), conn_req(GET, b"/big.html", 0, 0, 1), conn_req(GET, b"/big.html", 1)], "conn-h2", h2))
     for _ in range(140 if tier == "quick" else 3000):
         adds = [(rng.choice(CONN_PATTERNS), rand_rule(rng)) for _ in range(rng.randrange(0, 7))]
         if rng.random() < 0.3:
@@ -292,18 +458,61 @@ def gen_conn(rng, tier):
         for _ in range(rng.randrange(4, 13)):
             path = rng.choice(CONN_PATHS) if rng.random() < 0.6 else rng.choice([b"/p", b"/n", b"/e", b"/a/b"])
             method = rng.choice([GET] * 15 + [HEAD] * 3 + [POST] * 2)
-            reqs.append(conn_req(method, path, rng.choice([0] * 7 + [1, 1, 2]), 1 if rng.random() < 0.25 else 0))
-        cases.append(conn_case(adds, rng.choice([b"Kvarn/0.6.3", b"S", b"x y"]), hs, reqs, "conn-random"))
+            rk = rng.choice([0] * 7 + [1, 1, 2])
+            reqs.append(conn_req(method, path, rk, 1 if rng.random() < 0.25 else 0, rng.choice([0, 0, 0, 1, 2, 3]) if rk == 0 else 0))
+        cfg = None
+        if rng.random() < 0.35:
+            cfg = x_cfg(1, 7, rng.randrange(2), rng.randrange(2), 0, 1 if rng.random() < 0.4 else 0)
+        cases.append(conn_case(adds, rng.choice([b"Kvarn/0.6.3", b"S", b"x y"]), hs, reqs, "conn-random", cfg))
+    # random: files, lines, percent-encoded spellings, rule sets over the same prefixes
+    for _ in range(60 if tier == "quick" else 2000):
+        adds = [(rng.choice(FILE_PATTERNS), rand_rule(rng)) for _ in range(rng.randrange(0, 6))]
+        if rng.random() < 0.5:
+            adds = dflt + adds
+        hs = [conn_handler(*h) for h in CONN_HANDLERS[:4]] + [h for h in lh if rng.random() < 0.5] + [f for f in fh[:-1] if rng.random() < 0.85]
+        reqs = []
+        for _ in range(rng.randrange(4, 11)):
+            path = rng.choice(FILE_PATHS[:-0 or None]) if rng.random() < 0.7 else rng.choice([b"/l1", b"/l3", b"/l6", b"/n", b"/p"])
+            if path == b"/big.html":
+                path = b"/f.html"
+            method = rng.choice([GET] * 15 + [HEAD] * 3 + [POST] * 2)
+            rk = rng.choice([0] * 8 + [1, 2])
+            reqs.append(conn_req(method, path, rk, 1 if rng.random() < 0.2 else 0, rng.choice([0, 0, 1, 2, 3]) if rk == 0 else 0))
+        cases.append(conn_case(adds, b"S", hs, reqs, "conn-files-random", mount))
     return cases
 
 
 def generate(rng, tier):
-    return gen_ruleset(rng, tier) + gen_package(rng, tier) + gen_nonce(rng, tier) + gen_conn(rng, tier)
+    SEEN_NONCES.clear()
+    return gen_ruleset(rng, tier) + gen_package(rng, tier) + gen_nonce(rng, tier) + gen_line(rng, tier) + gen_conn(rng, tier)
+
+
+SEEN_NONCES = {}
 
 
 # ------------------------------------------------------------------------------------------------
-# comparison modulo the generator's values
+# comparison modulo the generator's values and modulo the text of a policy
 # ------------------------------------------------------------------------------------------------
+CSP = b"content-security-policy"
+B64CH = frozenset(b"ABCDEFGHIJKLMNOPQRSTUVWXYZabcdefghijklmnopqrstuvwxyz0123456789+/=-_")
+MIN_NONCE = 16          # characters; the property does not fix the length of the value (today: 24 = 16 bytes in base64)
+
+
+def parse_csp(v):
+    """a serialized policy as a CSP parser reads it (CSP3 2.2.1): directive name -> sorted sources; the first
+    directive of a name wins.  The property fixes what the policy says, not its spelling."""
+    out = {}
+    for part in v.split(b";"):
+        toks = part.split()
+        if toks and toks[0].lower() not in out:
+            out[toks[0].lower()] = tuple(sorted(toks[1:]))
+    return out
+
+
+def canon_csp(v):
+    return b"; ".join(n + b"".join(b" " + x for x in srcs) for n, srcs in sorted(parse_csp(v).items()))
+
+
 def fill_tb(t, nonces):
     """template (L (B lit) (L (N k)) ...) -> (B bytes) with the k-th observed nonce substituted"""
     if t[0] != "L":
@@ -332,6 +541,17 @@ def impl_nonces(pi):
     return out
 
 
+def canon_headers(hs):
+    """(L (L (B name) (B value)) ...) with policies in canonical spelling, sorted"""
+    out = []
+    for h in hs[1]:
+        n, v = h[1][0][1], h[1][1]
+        if v is None:
+            return None
+        out.append((n, canon_csp(v[1]) if n == CSP else v[1]))
+    return sorted(out)
+
+
 def fill_page(pm, nonces):
     """model output of nonce.page with templates filled"""
     if not (pm[0] == "L" and len(pm[1]) == 2 and pm[1][0] == ("N", 0)):
@@ -354,8 +574,16 @@ def has_none(x):
     return False
 
 
+def take_nonce(data, pos):
+    """the value of a hole: the longest run of base64 characters"""
+    end = pos
+    while end < len(data) and data[end] in B64CH:
+        end += 1
+    return data[pos:end]
+
+
 def unify(t, data, env):
-    """template (L (B lit) (L (N k)) ...) against bytes; a hole k stands for 24 bytes (bound on first sight)"""
+    """template (L (B lit) (L (N k)) ...) against bytes; a hole k stands for one nonce value (bound on first sight)"""
     if t[0] != "L" or not isinstance(data, (bytes, bytearray)):
         return False
     pos = 0
@@ -366,68 +594,216 @@ def unify(t, data, env):
             pos += len(seg[1])
         elif seg[0] == "L" and len(seg[1]) == 1 and seg[1][0][0] == "N":
             k = seg[1][0][1]
-            v = data[pos:pos + 24]
-            if len(v) != 24 or env.setdefault(k, v) != v:
+            v = env.get(k)
+            if v is None:
+                v = take_nonce(data, pos)
+                if len(v) < MIN_NONCE:
+                    return False
+                env[k] = v
+            if data[pos:pos + len(v)] != v:
                 return False
-            pos += 24
+            pos += len(v)
         else:
             return False
     return pos == len(data)
+
+
+NONCE_SRC = re.compile(rb"'nonce-([A-Za-z0-9+/=_-]{%d,})'" % MIN_NONCE)
+NONCE_ATTR = re.compile(rb"nonce=[\"']([A-Za-z0-9+/=_-]{%d,})[\"']" % MIN_NONCE)
+
+
+def holes(t):
+    return [seg[1][0][1] for seg in t[1] if seg[0] == "L" and len(seg[1]) == 1 and seg[1][0][0] == "N"]
+
+
+def bind_from_policy(t, data, env):
+    """holes of a template for a policy that are not bound yet: the (single) nonce value of the policy text"""
+    free = {k for k in holes(t) if k not in env}
+    if free:
+        vals = set(NONCE_SRC.findall(data))
+        if len(free) != 1 or len(vals) != 1:
+            return False
+        env[free.pop()] = vals.pop()
+    return True
+
+
+def unify_header(name, t, data, env):
+    if name != CSP:
+        return unify(t, data, env)
+    if not bind_from_policy(t, data, env):
+        return False
+    f = fill_tb(t, env)
+    return f is not None and canon_csp(f[1]) == canon_csp(data)
 
 
 def is_ok(p):
     return p[0] == "L" and len(p[1]) == 2 and p[1][0] == ("N", 0)
 
 
-def conn_agree(i, m):
-    """implementation output of c14.conn against a model/specification output with templates"""
+def ims_and_range(r):
+    """If-Modified-Since together with Range: whether the 304 wins or the range is tried on it (416) is C09's
+    subject; the property asks for the security headers on whichever is sent"""
+    return r[1][2][1] != 0 and r[1][3][1] == 1
+
+
+def status_agrees(r, sa, sb):
+    return sa == sb or (ims_and_range(r) and {sa[1], sb[1]} <= {304, 416})
+
+
+def conn_agree(c, i, m):
+    """implementation output of c14.conn against the model output with templates"""
     pi, pm = xparse(i), xparse(m)
     if not (is_ok(pi) and is_ok(pm)):
         return i == m
     ri, rm = pi[1][1][1], pm[1][1][1]
-    if len(ri) != len(rm):
+    reqs = c.x[1][3][1]
+    if len(ri) != len(rm) or len(ri) != len(reqs):
         return False
     env = {}
-    for a, b in zip(ri, rm):
+    for r, a, b in zip(reqs, ri, rm):
         (sa, ha, ba), (sb, hb, bb) = a[1], b[1]
-        if sa != sb or len(ha[1]) != len(hb[1]) or not unify(bb, ba[1], env):
+        if not status_agrees(r, sa, sb) or len(ha[1]) != len(hb[1]) or not unify(bb, ba[1], env):
             return False
         for x, y in zip(ha[1], hb[1]):
-            if x[1][0] != y[1][0] or not unify(y[1][1], x[1][1][1], env):
+            if x[1][0] != y[1][0] or not unify_header(x[1][0][1], y[1][1], x[1][1][1], env):
                 return False
+    return True
+
+
+def line_agree(i, m):
+    """nonce.line: replies (status, csp-nonce values, body), handler calls, headers after the chain"""
+    pi, pm = xparse(i), xparse(m)
+    if not (is_ok(pi) and is_ok(pm)):
+        return i == m
+    (ri, ci, hi), (rm, cm, hm) = pi[1][1][1], pm[1][1][1]
+    if ci != cm or len(ri[1]) != len(rm[1]) or len(hi[1]) != len(hm[1]):
+        return False
+    env = {}
+    for a, b in zip(ri[1], rm[1]):
+        (sa, na, ba), (sb, nb, bb) = a[1], b[1]
+        if sa != sb or len(na[1]) != len(nb[1]) or not unify(bb, ba[1], env):
+            return False
+        for x, y in zip(na[1], nb[1]):
+            if not unify(y, x[1], env):
+                return False
+    for x, y in zip(hi[1], hm[1]):
+        if x[1][0] != y[1][0] or not unify_header(x[1][0][1], y[1][1], x[1][1][1], env):
+            return False
     return True
 
 
 def compare(c, i, m):
     if c.comp == "c14.conn":
-        return conn_agree(i, m)
+        return conn_agree(c, i, m)
+    if c.comp == "nonce.line":
+        return line_agree(i, m)
+    if c.comp == "csp.package":
+        pi, pm = xparse(i), xparse(m)
+        if not (is_ok(pi) and is_ok(pm)):
+            return i == m
+        return pi[1][1][1][0] == pm[1][1][1][0] and canon_headers(pi[1][1][1][1]) == canon_headers(pm[1][1][1][1])
     if c.comp != "nonce.page":
         return i == m
     pi, pm = xparse(i), xparse(m)
+    if not (is_ok(pi) and is_ok(pm)):
+        return i == m
     filled = fill_page(pm, impl_nonces(pi))
-    return (not has_none(filled)) and xtext(filled) == i
+    if has_none(filled):
+        return False
+    return pi[1][1][1][:4] == filled[1][1][1][:4] and canon_headers(pi[1][1][1][4]) == canon_headers(filled[1][1][1][4])
 
 
 SEC_NAMES = [b"content-security-policy", b"referrer-policy", b"server", b"csp-nonce"]
 
 
-def sec_values(hs):
-    """(L (L (B name) (B value)) ...) -> the values of the four security headers, each list sorted"""
+def spec_policies(xpols, fill):
+    """(L policy ...) of a specification output -> sorted canonical policies; None when a template cannot be filled"""
     out = []
-    for n in SEC_NAMES:
-        out.append(sorted(h[1][1][1] for h in hs[1] if h[1][0][1] == n))
-    return out
+    for pol in xpols[1]:
+        d = {}
+        for e in pol[1]:
+            name, srcs = e[1][0][1], [fill(x) for x in e[1][1][1]]
+            if any(x is None for x in srcs):
+                return None
+            if name.lower() not in d:
+                d[name.lower()] = tuple(sorted(srcs))
+        out.append(sorted(d.items()))
+    return sorted(out)
+
+
+TOKEN = re.compile(rb"^[\x21-\x3a\x3c-\x7e]+$")        # visible ASCII without ';'
+
+
+def rules_are_tokens(adds):
+    """the specification of the policy (theorem policy_parses) speaks about rules whose directive names and values
+    are tokens: not empty, no white space, no ';' (anything else cannot be written in a policy at all)"""
+    for a in adds[1]:
+        named, undefined = a[1][1][1]
+        for d in named[1]:
+            if not all(TOKEN.match(v[1]) for v in d[1][1][1]):
+                return False
+        for u in undefined[1]:
+            if not TOKEN.match(u[1][0][1]) or not all(TOKEN.match(v[1]) for v in u[1][1][1]):
+                return False
+    return True
+
+
+def security_agrees(hs, sec_spec, fill, policy=True):
+    """the four security headers of an implementation output (L (L (B name) (B value)) ...) against a
+    specification output (L (L policy ...) (L referrer ...) (L server ...) (L))"""
+    got = {n: [h[1][1][1] for h in hs[1] if h[1][0][1] == n] for n in SEC_NAMES}
+    pols, refs, servers, nonces = sec_spec[1]
+    want_pols = spec_policies(pols, fill)
+    want_refs = [fill(x) for x in refs[1]]
+    want_servers = [fill(x) for x in servers[1]]
+    if want_pols is None or None in want_refs or None in want_servers:
+        return False
+    return ((not policy or sorted(sorted(parse_csp(v).items()) for v in got[CSP]) == want_pols)
+            and len(got[CSP]) == len(want_pols)
+            and sorted(got[b"referrer-policy"]) == sorted(want_refs)
+            and sorted(got[b"server"]) == sorted(want_servers)     # the harness prints headers sorted: order is not observed
+            and got[b"csp-nonce"] == [])
 
 
 def spec_ok(c, i, s):
     if c.comp == "c14.conn":
-        return conn_agree(i, s)
+        pi, ps = xparse(i), xparse(s)
+        if not (is_ok(pi) and is_ok(ps)):
+            return False
+        ri, rs = pi[1][1][1], ps[1][1][1]
+        reqs = c.x[1][3][1]
+        if len(ri) != len(rs) or len(ri) != len(reqs):
+            return False
+        env = {}
+        for r, a, b in zip(reqs, ri, rs):
+            if len(b[1]) != 3:
+                return False
+            (sa, ha, ba), (sb, secb, bb) = a[1], b[1]
+            if not status_agrees(r, sa, sb) or not unify(bb, ba[1], env):
+                return False
+            # the nonce of this reply: bound by the body, else the one its policy names
+            for pol in secb[1][0][1]:
+                for e in pol[1]:
+                    for t in e[1][1][1]:
+                        for k in holes(t):
+                            if k not in env:
+                                vals = set(NONCE_SRC.findall(b" ".join(h[1][1][1] for h in ha[1] if h[1][0][1] == CSP)))
+                                if len(vals) != 1:
+                                    return False
+                                env[k] = vals.pop()
+
+            def fill(t, env=env):
+                f = fill_tb(t, env)
+                return None if f is None else f[1]
+            if not security_agrees(ha, secb, fill, rules_are_tokens(c.x[1][0])):
+                return False
+        return True
     if c.comp == "csp.package":
         pi, ps = xparse(i), xparse(s)
-        if not is_ok(pi):
+        if not is_ok(pi) or len(ps[1]) != 4:
             return False
-        want = [sorted(v[1] for v in l[1]) for l in ps[1]]
-        return sec_values(pi[1][1][1][1]) == want
+        nonce_ok = all(TOKEN.match(h[1][1][1]) for h in c.x[1][2][1] if h[1][0][1] == b"csp-nonce")
+        return security_agrees(pi[1][1][1][1], ps, lambda x: x[1] if x[0] == "B" else None, nonce_ok and rules_are_tokens(c.x[1][0]))
     if c.comp != "nonce.page":
         return i == s
     ps = xparse(s)
@@ -441,26 +817,77 @@ def spec_ok(c, i, s):
         got = pi[1][1][1][0][1][2]
         if want is None or want != got:
             return False
-    want_sec = []
-    for l in sec_spec[1]:
-        vals = [fill_tb(t, nonces) for t in l[1]]
-        if any(v is None for v in vals):
-            return False
-        want_sec.append(sorted(v[1] for v in vals))
-    return sec_values(pi[1][1][1][4]) == want_sec
+
+    def fill(t):
+        f = fill_tb(t, nonces)
+        return None if f is None else f[1]
+    return security_agrees(pi[1][1][1][4], sec_spec, fill, rules_are_tokens(c.x[1][3]))
 
 
-B64 = re.compile(rb"^[A-Za-z0-9+/]{22}==$")
-NONCE_SRC = re.compile(rb"'nonce-([A-Za-z0-9+/]{22}==)'")
-NONCE_ATTR = re.compile(rb"nonce=[\"']([A-Za-z0-9+/]{22}==)[\"']")
+B64 = re.compile(rb"^[A-Za-z0-9+/=_-]{%d,}$" % MIN_NONCE)
+ATTR = re.compile(rb"nonce=(\"[^\"]*\"|'[^']*')")
+
+
+def py_rewrite(body, nonce):
+    """the rewriting as the property words it, a third implementation (leftmost non-overlapping attributes
+    nonce="..." / nonce='...'; everything else byte for byte)"""
+    return ATTR.sub(lambda m: b"nonce=" + m.group(1)[:1] + nonce + m.group(1)[:1], body)
+
+
+def resolved(path):
+    """the path a file is read from: percent-decoded (the text itself if that is not UTF-8), repeated slashes collapsed"""
+    d = urllib.parse.unquote_to_bytes(path)
+    try:
+        d.decode("utf-8")
+    except UnicodeDecodeError:
+        d = path
+    return re.sub(rb"/+", b"/", d)
 
 
 def covering(adds, path):
-    """independent of the model: does any pattern of the rule set cover the path?"""
+    """independent of the model: does any pattern of the rule set cover the path the file is read from?"""
+    path = resolved(path)
     for p, _ in adds:
         if p == path or (p.endswith(b"*") and path.startswith(p[:-1])):
             return True
     return False
+
+
+def fresh(c, values, where):
+    """no value may come twice in the whole run (a counter or a seed per process would repeat across cases)"""
+    for v in values:
+        if v in SEEN_NONCES and SEEN_NONCES[v] != (c.id, where):
+            return "the nonce %r was sent before (case %s)" % (v, SEEN_NONCES[v][0])
+        SEEN_NONCES[v] = (c.id, where)
+    return None
+
+
+def four_directives(policy_text, nonce):
+    """the four script/style directives name the nonce once each, no other directive does"""
+    pol = parse_csp(policy_text)
+    src = b"'nonce-" + nonce + b"'"
+    for d in (b"script-src", b"style-src", b"script-src-elem", b"style-src-elem"):
+        if pol.get(d, ()).count(src) != 1:
+            return "directive %s does not name the nonce exactly once" % d.decode()
+    if sum(v.count(src) for v in pol.values()) != 4 or policy_text.count(nonce) != 4:
+        return "nonce does not occur exactly four times in the policy"
+    return None
+
+
+def bits_vary(values):
+    """every bit of the decoded values takes both values over the sample (a counter, a clock, a constant prefix do not)"""
+    try:
+        raw = [base64.b64decode(v + b"=" * (-len(v) % 4), altchars=b"-_") for v in values]
+    except ValueError:
+        return "nonce is not base64"
+    n = min(len(r) for r in raw)
+    if n < 12:
+        return "nonce has fewer than 96 bits"
+    for bit in range(8 * n):
+        col = {(r[bit // 8] >> (bit % 8)) & 1 for r in raw}
+        if len(col) != 2:
+            return "bit %d of the nonce is the same in all %d responses" % (bit, len(raw))
+    return None
 
 
 def extra_oracle(c, i):
@@ -469,13 +896,20 @@ def extra_oracle(c, i):
     if c.comp == "csp.package":
         if not (pi[0] == "L" and len(pi[1]) == 2 and pi[1][0] == ("N", 0)):
             return "package chain failed"
+        cfg = c.x[1][4][1] if len(c.x[1]) > 4 else None
+        if cfg is not None and cfg[0][1] == 2 and cfg[1][1] != 7:
+            return None     # a configuration without one of the three extensions: no claim
         hs = [(h[1][0][1], h[1][1][1]) for h in pi[1][1][1][1][1]]
         names = [n for n, _ in hs]
         server = c.x[1][3][1]
+        platform = cfg is not None and cfg[0][1] != 0 and cfg[2][1] == 1
+        override = cfg is None or cfg[0][1] == 0 or cfg[3][1] == 1
+        want_server = server + (b" (Linux)" if platform else b"")
         had_ref = [v[1][1][1] for v in c.x[1][2][1] if v[1][0][1] == b"referrer-policy"]
         if b"csp-nonce" in names:
             return "csp-nonce header exposed"
-        if [v for n, v in hs if n == b"server"] != [server]:
+        servers = [v for n, v in hs if n == b"server"]
+        if (override and servers != [want_server]) or (not override and want_server not in servers):
             return "server header is not the configured one"
         refs = [v for n, v in hs if n == b"referrer-policy"]
         if (had_ref and sorted(refs) != sorted(had_ref)) or (not had_ref and refs != [b"no-referrer"]):
@@ -484,26 +918,86 @@ def extra_oracle(c, i):
     if c.comp == "c14.conn":
         if not is_ok(pi):
             return "a request through handle_connection got no answer (panic in the pipeline)"
-        server = c.x[1][1][1]
-        nonce_paths = {h[1][0][1] for h in c.x[1][2][1] if h[1][4][1] == 1}
+        cfg = c.x[1][4][1]
+        server = c.x[1][1][1] + (b" (Linux)" if cfg[0][1] != 0 and cfg[2][1] == 1 else b"")
+        override = cfg[0][1] == 0 or cfg[3][1] == 1
+        plain_nonce = {h[1][0][1]: h[1][5][1] for h in c.x[1][2][1] if h[1][4] == ("N", 1) and h[1][6][1] == 0}
         seen = set()
-        for r, rep in zip(c.x[1][3][1], pi[1][1][1]):
+        for k, (r, rep) in enumerate(zip(c.x[1][3][1], pi[1][1][1])):
             st, hs, body = rep[1]
             hs = [(h[1][0][1], h[1][1][1]) for h in hs[1]]
             if any(n == b"csp-nonce" for n, _ in hs):
                 return "csp-nonce header exposed on the wire (status %d)" % st[1]
-            if [v for n, v in hs if n == b"server"] != [server]:
+            servers = [v for n, v in hs if n == b"server"]
+            if (override and servers != [server]) or (not override and server not in servers):
                 return "status %d reply lacks the configured server header" % st[1]
             if not [v for n, v in hs if n == b"referrer-policy"]:
                 return "status %d reply lacks referrer-policy" % st[1]
-            vals = set(NONCE_SRC.findall(b" ".join(v for n, v in hs if n == b"content-security-policy")))
-            if r[1][0][1] == GET and st[1] == 200 and r[1][1][1] in nonce_paths:
+            policy = b" ".join(v for n, v in hs if n == CSP)
+            vals = set(NONCE_SRC.findall(policy))
+            if len(vals) > 1:
+                return "the policy names two nonces"
+            if r[1][0][1] == GET and st[1] in (200, 206):
                 vals |= set(NONCE_ATTR.findall(body[1]))
                 if len(vals) > 1:
                     return "nonce page: body and policy carry different values"
-                if vals & seen:
-                    return "nonce repeated between two responses (served from a cache?)"
-                seen |= vals
+            if vals & seen:
+                return "nonce repeated between two responses (served from a cache?)"
+            seen |= vals
+            why = fresh(c, vals, k)
+            if why:
+                return why
+            if vals and r[1][0][1] == GET and st[1] == 200 and r[1][2][1] == 0 and r[1][1][1] in plain_nonce:
+                if body[1] != py_rewrite(plain_nonce[r[1][1][1]], next(iter(vals))):
+                    return "nonce page: the body is not the handler's with every nonce attribute value replaced"
+            if vals and len([v for n, v in hs if n == CSP]) == 1:
+                why = four_directives(policy, next(iter(vals)))
+                if why:
+                    return why
+        return None
+    if c.comp == "nonce.line":
+        if not is_ok(pi):
+            return "page with a line of directives: request failed (panic)"
+        replies, calls, hs = pi[1][1][1]
+        body0 = c.x[1][0][1]
+        values = []
+        for k, rep in enumerate(replies[1]):
+            st, ns, body = rep[1]
+            ns = [n[1] for n in ns[1]]
+            if len(ns) > 1:
+                return "two csp-nonce headers"
+            if ns:
+                if not B64.match(ns[0]):
+                    return "nonce is not a base64 value of at least %d characters" % MIN_NONCE
+                values.append(ns[0])
+                if st[1] == 200 and body[1] != py_rewrite(body0, ns[0]):
+                    return "the body is not the page with every nonce attribute value replaced by the reply's nonce"
+            elif st[1] == 200 and set(NONCE_ATTR.findall(body[1])) - set(NONCE_ATTR.findall(body0)):
+                return "a nonce in the body without csp-nonce"
+        if len(set(values)) != len(values):
+            return "nonce repeated between two responses (served from the cache)"
+        if values and len(values) == len(replies[1]) and calls[1] != len(replies[1]):
+            return "a page with a nonce was not computed for every request"
+        why = fresh(c, values, 0)
+        if why:
+            return why
+        if len(values) >= 64:
+            why = bits_vary(values)
+            if why:
+                return why
+        hs = [(h[1][0][1], h[1][1][1]) for h in hs[1]]
+        if any(n == b"csp-nonce" for n, _ in hs):
+            return "csp-nonce header exposed"
+        if [v for n, v in hs if n == b"server"] != [DEFAULT_SERVER]:
+            return "Extensions::new() does not set its server header (%r)" % DEFAULT_SERVER
+        if [v for n, v in hs if n == b"referrer-policy"] != [b"no-referrer"]:
+            return "Extensions::new() does not set referrer-policy: no-referrer"
+        csp = [v for n, v in hs if n == CSP]
+        if len(csp) != 1 or parse_csp(csp[0]).get(b"default-src") != (b"'self'",):
+            return "Extensions::new() does not set its default content-security-policy"
+        first = replies[1][0][1][1][1]
+        if first:
+            return four_directives(csp[0], first[0][1])
         return None
     if c.comp != "nonce.page":
         return None
@@ -515,26 +1009,24 @@ def extra_oracle(c, i):
     r1, r2, calls, differ, hs = pi[1][1][1]
     nonces = impl_nonces(pi)
     if 1 not in nonces or 2 not in nonces or not B64.match(nonces[1]) or not B64.match(nonces[2]):
-        return "nonce is not a 24-character base64 value"
+        return "nonce is not a base64 value of at least %d characters" % MIN_NONCE
     if nonces[1] == nonces[2] or calls[1] != 2:
         return "nonce page served from the cache / nonce repeated"
+    why = fresh(c, [nonces[1], nonces[2]], 0)
+    if why:
+        return why
+    for k, r in ((1, r1), (2, r2)):
+        if r[1][2][1] != py_rewrite(c.x[1][0][1], nonces[k]):
+            return "the body is not the page with every nonce attribute value replaced by the reply's nonce"
     hs = [(h[1][0][1], h[1][1][1]) for h in hs[1]]
     if any(n == b"csp-nonce" for n, _ in hs):
         return "csp-nonce header exposed"
     adds = [(a[1][0][1], a[1][1]) for a in c.x[1][3][1]]
     if covering(adds, b"/p"):
-        csp = [v for n, v in hs if n == b"content-security-policy"]
+        csp = [v for n, v in hs if n == CSP]
         if len(csp) != 1:
             return "no content-security-policy on a nonce page covered by a rule"
-        dirs = {}
-        for d in csp[0].split(b"; "):
-            name, _, val = d.partition(b" ")
-            dirs[name] = val.split(b" ")
-        for d in (b"script-src", b"style-src", b"script-src-elem", b"style-src-elem"):
-            if b"'nonce-" + nonces[1] + b"'" not in dirs.get(d, []):
-                return "directive %s lacks the nonce" % d.decode()
-        if csp[0].count(nonces[1]) != 4:
-            return "nonce does not occur exactly four times in the policy"
+        return four_directives(csp[0], nonces[1])
     return None
 
 
@@ -545,6 +1037,8 @@ def signature(c, m):
         return "rs" if "(L (N" in m else None
     if c.comp == "c14.conn":
         return "conn"
+    if c.comp == "nonce.line":
+        return "line"
     return "pkg"
 
 
@@ -567,7 +1061,7 @@ def directed(rng, mismatches):
     for _ in range(3000):
         n = rng.randrange(1, 9)
         cases.append(rs_case(number([rng.choice(PATTERNS) for _ in range(n)]), "directed"))
-    cases += [c for c in gen_conn(rng, "quick") if c.meta["kind"] == "conn-kinds"]
+    cases += [c for c in gen_conn(rng, "quick") if c.meta["kind"] != "conn-random"]
     cases += gen_package(rng, "quick")
     return cases
 
@@ -578,148 +1072,228 @@ RULE = ("(a) kvarn::extensions::RuleSet::<u32> called directly: histories of add
         "threshold of sort_unstable_by); get() for 14 probe paths; only get results are compared (with the model and with the independent "
         "resolver ruleset.spec). (b) the nonce Present extension through kvarn::handle_cache in process (two requests per case, handler-call "
         "counter) on bodies over the alphabet {nonce=, \", ', a, SP, >} exhaustive to 4 (quick) / 6 (thorough) tokens, random longer strings, "
-        "27 documents; the generator's value is read from the reply and substituted into the model's / specification's template (nonce.spec: "
-        "splice specification of the body + demanded security headers after the Package chain). (c) the Package extensions of "
-        "Extensions::new()+with_csp+with_server_header called in list order on random rule sets, paths, incoming headers (csp-nonce values "
-        "incl. non-ASCII, pre-set referrer-policy / server / content-security-policy), against the model and the header specification "
-        "csp.package_spec. (d) the send path: kvarn::handle_connection on a loopback TCP pair, one host with response cache, 11 Prepare "
-        "handlers (cacheable / not, statuses 200 201 403 404 500, own referrer-policy / CSP / server headers, two nonce pages), random CSP rule "
-        "sets with re-adds, sequences of 4-12 raw HTTP/1.1 requests (GET/HEAD/POST, Range satisfiable / unsatisfiable, If-Modified-Since in the "
-        "future, missing paths, paths refused by sanitize_request, paths rewritten by the Prime extension) so that misses, hits, 304, 206, 416, "
-        "400, 404, 5xx all occur; status, the four security headers on the wire and the body of 200/206 GETs are compared with the model "
-        "(c14.conn) and the specification (c14.conn_spec); nonce values are unified across body and policy. distinct_nontrivial counts "
-        "distinct inputs with a rule hit / a nonce= occurrence / any package or connection run")
+        "27 documents, and bodies of 64-70 KiB with attributes at offsets 65521-65537, at both ends, and 300 (thorough 3000) attributes; the "
+        "generator's value is read from the reply and substituted into the model's / specification's template (nonce.spec: splice "
+        "specification of the body + demanded security headers after the Package chain); a third rewriter (a regular expression in the "
+        "driver) is compared with every body. (b') nonce.line: a page whose first line has 1-4 Present directives out of a vocabulary of 20 "
+        "(nonce; cache with server:/client: arguments that parse or not; allow-ips naming the client or not; hide; download; unknown) on a host "
+        "with Extensions::new() AS IT IS + kvarn_extensions::mount_all, 2-4 requests (two cases with 64): status, csp-nonce, body of every reply, "
+        "handler calls, security headers after the chain against the model; oracles on the output: no value twice in the case or in the whole "
+        "run, every bit of 64 values varies, body = page rewritten with the reply's value, new()'s own server / referrer-policy / default policy. "
+        "(c) the Package extensions called in list order for Extensions::new() as it is, new()+with_csp+with_server_header with all four flag "
+        "combinations (platform suffix, override/append), and Extensions::empty() + every subset of the three (model only), on random rule sets, "
+        "paths incl. 17 percent-encoded / double-slash / undecodable spellings, incoming headers (csp-nonce values incl. non-ASCII, pre-set "
+        "referrer-policy / server / content-security-policy), against the model and the header specification csp.package_spec (policy compared "
+        "as parsed policy: directive -> source set). (d) the send path: kvarn::handle_connection on a loopback TCP pair, one host with response "
+        "cache, 11 Prepare handlers (cacheable / not, statuses 200 201 403 404 500, own referrer-policy / CSP / server headers, two nonce pages), "
+        "6 handlers whose first line has several directives, 6 files of a fixture directory (nonce pages, a 72 KiB one, a directory index), "
+        "random CSP rule sets with re-adds, sequences of 4-12 raw HTTP/1.1 requests (GET/HEAD/POST, Range satisfiable / unsatisfiable, "
+        "If-Modified-Since in the future, accept-encoding gzip / br / zstd with the body decoded by the client, missing paths, paths refused by "
+        "sanitize_request, paths rewritten by the Prime extension, 15 percent-encoded / double-slash spellings of the files) so that misses, hits, "
+        "304, 206, 416, 400, 404, 405, 5xx all occur, also with Extensions::new() as it is, with the other with_server_header flags, and over "
+        "TLS + HTTP/2 (h2 crate client, one stream per request; 10 directed cases + 14% of the random ones); status, "
+        "the four security headers on the wire and the body of 200/206 GETs are compared with the model (c14.conn) and the specification "
+        "(c14.conn_spec); nonce values are unified across body and policy; for If-Modified-Since + Range the status may be 304 or 416 "
+        "(C09's subject). distinct_nontrivial counts distinct inputs with a rule hit / a nonce= occurrence / any package, line or connection run")
 ASSUMPTIONS = [
     "rand::rng() yields 16 fresh bytes per call; the model takes the draws as a function rng : nat -> bytes (symbolic in the correspondence "
-    "run) and the theorems hold for every rng; 'differs between responses' is proved from 'one draw per response, nothing cached' under "
-    "the hypothesis that the draws differ, and observed on the implementation's output (extra oracle)",
+    "run) and the theorems hold for every rng; 'differs between responses' is proved from 'one draw per nonce directive, nothing that carries "
+    "a nonce is cached' under the hypothesis that the draws differ; on the implementation's output it is observed: no value twice in the whole "
+    "run, and every bit of the 16 bytes takes both values over 64 responses (false-alarm probability 2^-56)",
     "sort_unstable_by returns a permutation sorted for its comparator (theorem most_specific_rule holds for every such permutation; the "
     "executable model uses the insertion sort that the std library runs for up to 20 elements and is proved to be one of them)",
-    "the CSP rule is chosen by request.uri().path() after Prime rewriting (e.g. / -> /index.html); the theorems speak about that path",
-    "HeaderMap is modelled as an association list (insert = replace all values of the name, entry().or_insert = keep); header names are "
-    "lower-case tokens; h_all = HeaderMap::get_all",
+    "the CSP rule is chosen for the path the file is read from: request.uri().path() after Prime rewriting (e.g. / -> /index.html), "
+    "percent-decoded and with repeated slashes collapsed (Cors::resolved_path; kvarn_utils::percent_decode is Model/PathSan.v's); the theorems "
+    "speak about that path; a rule pattern that itself contains percent escapes never matches",
+    "HeaderMap is modelled as an association list (insert = replace all values of the name, append = add at the end, entry().or_insert = "
+    "keep); header names are lower-case tokens; h_all = HeaderMap::get_all; the harness prints headers sorted, so the order of several server "
+    "headers (override_server_header = false) is not observed",
     "a handler-set content-security-policy is replaced when the most specific rule serialises to a non-empty policy and kept when the rule is "
     "empty or no rule covers the path (this is what with_csp does; the property text is read accordingly)",
+    "theorem policy_parses (the emitted text, read by a CSP parser, is the rule's directives and sources) is for rules and nonces made of tokens "
+    "(not empty, no space, no ';'); the oracle compares parsed policies only for such inputs, other inputs are compared model vs. implementation",
+    "Present directives: kvarn's nonce and kvarn_extensions' cache / allow-ips / hide are modelled (effect on body, csp-nonce, server cache "
+    "preference, the NoServerCache mark); download and unknown names have no effect on what the property looks at; tmpl is not modelled; "
+    "cache arguments are from the generator's vocabulary (no sign, no overflow in '<n>s'); allow-ips compares with the text 127.0.0.1",
     "responses that do not go through SendKind::send (409 unknown host, 429 from the limiter, connection-level parse errors) are outside "
-    "the property and the model; HTTP/2 push (SendKind::Push) runs the same resolve_package call and is not exercised",
-    "send-path fixture: query strings, request bodies, compression (no accept-encoding is sent) and vary are not part of the fixture; "
-    "sanitize_request is modelled on the fixture's paths only (refused iff the path contains './'); error-page bodies are a placeholder",
+    "the property and the model; HTTP/2 push (SendKind::Push) runs the same resolve_package call and is not exercised (no push extension is "
+    "mounted by the fixture's requests); HTTP/2 itself is (conn-h2 cases: TLS + ALPN h2, one stream per request)",
+    "send-path fixture: query strings, request bodies and vary are not part of the fixture; compression is transparent (the client decodes; "
+    "no accept-encoding together with Range); files are modelled as a map from the collapsed decoded path to content (no symbolic links, no "
+    "'..'); error-page bodies are a placeholder; the nonce length is not fixed (a value is a run of >= 16 base64 characters)",
 ]
 TRUSTED = ["modelled: src/extensions.rs RuleSet::{add_mut,get}, with_nonce (rewriting loop, csp-nonce header, server cache preference), "
-           "with_no_referrer, with_server_header, with_uri_redirect (path suffix), resolve_package; src/csp.rs Rule::to_header_nonce, with_csp; "
-           "utils BytesCow::replace (splice semantics, panic when the range ends after the buffer); comprash ServerCachePreference::cache; "
-           "src/lib.rs handle_cache (hit / If-Modified-Since / miss / admission) and SendKind::send (range, 416/400 replacement, package "
-           "chain) at the granularity of the fixture"]
-LEVEL_TEXT = ("Machine-checked Coq theorems over transcriptions of RuleSet::add_mut/get, the nonce Present extension, "
-              "Rule::to_header_nonce and the Package chain of SendKind::send: (1) for every history of add_mut calls (any order, re-adds) "
-              "and whatever sorted permutation sort_unstable_by returns, get answers with the rule added last for the most specific "
-              "covering pattern (exact before wildcard, longer before shorter) - refinement to an independent resolver over the history; "
-              "(2) for every body and nonce the rewriting loop terminates without panic and returns the body cut into literal bytes and "
-              "well-formed nonce=\"..\"/nonce='..' attributes (unique greedy parse) with every attribute value replaced and nothing else "
-              "changed; (3) with a nonce, each of script-src, style-src, script-src-elem, style-src-elem is emitted as a '; '-delimited "
-              "directive ending in 'nonce-<value>', the same value as in the body; (4) n requests for a nonce page are n computations "
-              "with n generator draws, nothing is stored, and the rewritten page is refused by the admission filter of the cache model "
-              "(may_store) for every method/status; (5) no output of the Package chain contains csp-nonce; (6) every response head that "
-              "goes through the chain - in the send-path model: hits, misses, 4xx/5xx, 304, 206, 416 - carries server = the configured value, "
-              "referrer-policy = the handler's or no-referrer, and content-security-policy = the serialisation of the most specific rule "
-              "(or what the handler set when that rule is empty / no rule covers the path). Refutation witnesses for kvarn 0.6.3 (re-add "
-              "keeps the old rule; stray quote, clobbered values and panics in the rewriter; csp-nonce exposed) are proved on the v0 models; "
-              "the three defects are repaired in the repository (fix: commits). The model is tied to the repository on every run by a "
-              "differential run of the real RuleSet, handle_cache, the Package extensions and kvarn::handle_connection over loopback TCP.")
+           "resolve_present (directives in order + the nonce guard), with_no_referrer, with_server_header (both flags), with_uri_redirect (path "
+           "suffix), resolve_package, Extensions::new() (its Package list and defaults); src/csp.rs Rule::to_header_nonce, with_csp (rule of "
+           "Cors::resolved_path); extensions/src/lib.rs cache, ip_allow, hide (effect on preference / response / mark); utils BytesCow::replace "
+           "(splice semantics, panic when the range ends after the buffer); comprash ServerCachePreference::{cache,from_str}; src/lib.rs "
+           "handle_cache (hit / If-Modified-Since / miss / admission), handle_request (handler, file, 404/405) and SendKind::send (range, "
+           "416/400 replacement, package chain) at the granularity of the fixture"]
+LEVEL_TEXT = ("Machine-checked Coq theorems over transcriptions of RuleSet::add_mut/get, the nonce Present extension and the line of "
+              "Present directives, Rule::to_header_nonce and the Package chain of SendKind::send: (1) for every history of add_mut calls (any "
+              "order, re-adds) and whatever sorted permutation sort_unstable_by returns, get answers with the rule added last for the most "
+              "specific covering pattern (exact before wildcard, longer before shorter) - refinement to an independent resolver over the "
+              "history; (2) for every body and nonce the rewriting loop terminates without panic and returns the body cut into literal bytes "
+              "and well-formed nonce=\"..\"/nonce='..' attributes (unique greedy parse) with every attribute value replaced and nothing else "
+              "changed; (3) the serialisation against an independent reading: for every rule and nonce made of tokens, what a CSP parser "
+              "(split on ';', tokens separated by spaces) reads from the emitted header is exactly the rule's directives and sources, with the "
+              "nonce source appended - once - to script-src, style-src, script-src-elem, style-src-elem ('self' first when the rule gives "
+              "them nothing), and a header is emitted iff the rule holds something or the page has a nonce; the same value is in the body; "
+              "(4) n requests for a nonce page are n computations with n draws, nothing is stored, the rewritten page is refused by the "
+              "admission filter of the cache model for every method/status; and for EVERY first line of directives (nonce, cache, allow-ips, "
+              "hide, others, any order and number), every rewriter and every history of requests: nothing that carries a nonce is in the cache "
+              "and two replies that carry a nonce carry draws with different indices; (5) no output of the Package chain contains csp-nonce; "
+              "(6) every response head that goes through the chain - for both flags of with_server_header - carries server = the configured "
+              "value (with the platform suffix; after the response's own when override is off), referrer-policy = the handler's or no-referrer, "
+              "and content-security-policy = the serialisation of the most specific rule FOR THE PATH THE FILE IS READ FROM (percent-decoded, "
+              "slashes collapsed), or what the handler set when that rule is empty / no rule covers the path; in the send-path model (hits, "
+              "misses, 4xx/5xx, 304, 206, 416, handlers and files) the k-th reply carries these headers for the k-th request's path "
+              "(Forall2 over requests and replies). Refutation witnesses for kvarn 0.6.3 (re-add keeps the old rule; stray quote, clobbered "
+              "values and panics in the rewriter; csp-nonce exposed; '!> nonce &> cache server:full' cached with its nonce; the rule of the "
+              "path as spelled, /%75c/evil.html) are proved on the v0 models; the five defects are repaired in the repository (fix: commits). "
+              "The model is tied to the repository on every run by a differential run of the real RuleSet, handle_cache, the Package "
+              "extensions (Extensions::new() as it is, all flag combinations) and kvarn::handle_connection over loopback TCP with handlers, "
+              "files, compression and percent-encoded paths.")
 LEVEL_NOTE = ("Trusted: Coq kernel, extraction (ExtrOcamlBasic) reduced by an in-kernel recheck sample, the hand transcription of the anchored "
-              "code as validated by the differential run. The serialisation of a rule is specified by its model (to_header_nonce) plus the "
-              "directive theorem, not by an independent CSP grammar; the generator's randomness is a parameter; the send path is modelled at "
-              "the granularity of a fixture (which head reaches resolve_package), the HTTP/1 printer and HTTP/2 are other properties. No axioms.")
+              "code as validated by the differential run; the CSP parser of the specification (parse_policy, 10 lines) and its twin in the "
+              "driver. The policy is compared as a parsed policy (directive -> source set), so a change of its spelling alone does not alarm; "
+              "the text-level theorem nonce_in_directives is kept beside the parsed one. The generator's randomness is a parameter; the send "
+              "path is modelled at the granularity of a fixture (which head reaches resolve_package with which path), the HTTP/1 printer and "
+              "the HTTP/2 framing are other properties. No axioms.")
 TECHNIQUE = ("Coq proof (refinement of an independent longest-match resolver for all add histories and sort outcomes; loop = splice "
-             "specification for all bodies; header equations of the Package chain for all response heads) + differential correspondence "
+             "specification for all bodies; parser-of-serialiser = rule content for all token rules; invariant over all lines of Present "
+             "directives and request histories; header equations of the Package chain for all response heads) + differential correspondence "
              "model vs. implementation (direct calls, handle_cache in process, handle_connection over loopback TCP) + specification oracles")
 
 THEOREMS = [
     ("most_specific_rule",
-     "forall (R : Type) (hist : list (bytes * R)) (rules : ruleset R) (uri : bytes), "
-     "rs_reach hist rules -> rs_get rules uri = resolve hist uri"),
+     "forall (R : Type) (hist : list (bytes * R)) (rules : ruleset R) (uri : bytes), rs_reach hist rules -> rs_get rules uri = "
+     "resolve hist uri"),
     ("most_specific_rule_model",
-     "forall (R : Type) (hist : list (bytes * R)) (uri : bytes), "
-     "rs_reach hist (rs_build rs_add hist) /\\ rs_get (rs_build rs_add hist) uri = resolve hist uri"),
+     "forall (R : Type) (hist : list (bytes * R)) (uri : bytes), rs_reach hist (rs_build rs_add hist) /\\ rs_get (rs_build "
+     "rs_add hist) uri = resolve hist uri"),
     ("resolver_meaning",
-     "forall (R : Type) (hist : list (bytes * R)) (uri : bytes) (r : R), resolve hist uri = Some r <-> "
-     "exists p, In p (map fst hist) /\\ covers p uri = true /\\ "
-     "(forall q, In q (map fst hist) -> covers q uri = true -> more_specific q p = false) /\\ last_added hist p = Some r"),
+     "forall (R : Type) (hist : list (bytes * R)) (uri : bytes) (r : R), resolve hist uri = Some r <-> exists p, In p (map fst "
+     "hist) /\\ covers p uri = true /\\ (forall q, In q (map fst hist) -> covers q uri = true -> more_specific q p = false) "
+     "/\\ last_added hist p = Some r"),
     ("resolver_none",
-     "forall (R : Type) (hist : list (bytes * R)) (uri : bytes), "
-     "resolve hist uri = None <-> forall p, In p (map fst hist) -> covers p uri = false"),
+     "forall (R : Type) (hist : list (bytes * R)) (uri : bytes), resolve hist uri = None <-> forall p, In p (map fst hist) -> "
+     "covers p uri = false"),
     ("covers_meaning",
-     "forall p uri : bytes, covers p uri = true <-> "
-     "(is_wild p = false /\\ p = uri) \\/ (exists pre rest, p = pre ++ [c_star] /\\ uri = pre ++ rest)"),
+     "forall p uri : bytes, covers p uri = true <-> (is_wild p = false /\\ p = uri) \\/ (exists pre rest, p = pre ++ [c_star] "
+     "/\\ uri = pre ++ rest)"),
     ("specificity_order",
-     "forall p q : bytes, (is_wild p = false -> is_wild q = true -> more_specific p q = true) /\\ "
-     "(is_wild p = is_wild q -> (length q < length p)%nat -> more_specific p q = true) /\\ "
-     "(forall uri, covers p uri = true -> covers q uri = true -> more_specific q p = false -> more_specific p q = false -> p = q)"),
+     "forall p q : bytes, (is_wild p = false -> is_wild q = true -> more_specific p q = true) /\\ (is_wild p = is_wild q -> "
+     "(length q < length p)%nat -> more_specific p q = true) /\\ (forall uri, covers p uri = true -> covers q uri = true -> "
+     "more_specific q p = false -> more_specific p q = false -> p = q)"),
     ("last_added_meaning",
-     "forall (R : Type) (hist : list (bytes * R)) (p : bytes) (r : R), "
-     "last_added hist p = Some r <-> exists h1 h2, hist = h1 ++ (p, r) :: h2 /\\ ~ In p (map fst h2)"),
+     "forall (R : Type) (hist : list (bytes * R)) (p : bytes) (r : R), last_added hist p = Some r <-> exists h1 h2, hist = h1 "
+     "++ (p, r) :: h2 /\\ ~ In p (map fst h2)"),
     ("readd_v0_refuted",
-     "rs_get (rs_build rs_add_v0 v0_hist) (B \"/a\") = Some 1 /\\ resolve v0_hist (B \"/a\") = Some 4 /\\ "
-     "rs_get (rs_build rs_add v0_hist) (B \"/a\") = Some 4"),
+     "rs_get (rs_build rs_add_v0 v0_hist) (B \"/a\") = Some 1 /\\ resolve v0_hist (B \"/a\") = Some 4 /\\ rs_get (rs_build "
+     "rs_add v0_hist) (B \"/a\") = Some 4"),
     ("nonce_spec",
      "forall nonce body : bytes, nonce_rewrite nonce body = Ok (Nonce.nonce_spec nonce body)"),
     ("nonce_splice",
      "forall nonce body : bytes, exists ps, Forall wf_piece ps /\\ greedy ps /\\ body = render (fun v => v) ps /\\ "
      "nonce_rewrite nonce body = Ok (render (fun _ => nonce) ps)"),
     ("nonce_parse_unique",
-     "forall ps1 ps2 : list piece, Forall wf_piece ps1 -> greedy ps1 -> Forall wf_piece ps2 -> greedy ps2 -> "
-     "render (fun v => v) ps1 = render (fun v => v) ps2 -> ps1 = ps2"),
+     "forall ps1 ps2 : list piece, Forall wf_piece ps1 -> greedy ps1 -> Forall wf_piece ps2 -> greedy ps2 -> render (fun v => "
+     "v) ps1 = render (fun v => v) ps2 -> ps1 = ps2"),
     ("nonce_never_panics",
      "forall nonce body : bytes, nonce_rewrite nonce body <> Panic /\\ forall e, nonce_rewrite nonce body <> Err e"),
     ("nonce_v0_refuted",
-     "nonce_rewrite_v0 (B \"N\") [] = Panic /\\ nonce_rewrite_v0 (B \"N\") (B \"xnonce=\") = Panic /\\ "
-     "nonce_rewrite_v0 (B \"N\") (B \"<s nonce=\"\"x\"\">\") = Ok (B \"<s nonce=\"\"N\"\"\"\">\") /\\ "
-     "nonce_rewrite_v0 (B \"N\") (B \"<s nonce=abc>\") = Ok (B \"<s nonce=\"\"\"\"c>\")"),
+     "nonce_rewrite_v0 (B \"N\") [] = Panic /\\ nonce_rewrite_v0 (B \"N\") (B \"xnonce=\") = Panic /\\ nonce_rewrite_v0 (B "
+     "\"N\") (B \"<s nonce=\"\"x\"\">\") = Ok (B \"<s nonce=\"\"N\"\"\"\">\") /\\ nonce_rewrite_v0 (B \"N\") (B \"<s "
+     "nonce=abc>\") = Ok (B \"<s nonce=\"\"\"\"c>\")"),
     ("nonce_in_directives",
-     "forall (r : csp_rule) (n d : bytes), length (fst r) = 27%nat -> hv_to_str_ok n = true -> In d nonce_directives -> "
-     "exists vals v pre post, In ([d], vals) (combine directive_names (fst r)) /\\ to_header_nonce r (Some n) = Some v /\\ "
-     "v = pre ++ d ++ [c_sp] ++ (if is_nil (join_sp vals) then SELF_SP else join_sp vals ++ [c_sp]) ++ nonce_source n ++ post /\\ "
+     "forall (r : csp_rule) (n d : bytes), length (fst r) = 27%nat -> hv_to_str_ok n = true -> In d nonce_directives -> exists "
+     "vals v pre post, In ([d], vals) (combine directive_names (fst r)) /\\ to_header_nonce r (Some n) = Some v /\\ v = pre ++ "
+     "d ++ [c_sp] ++ (if is_nil (join_sp vals) then SELF_SP else join_sp vals ++ [c_sp]) ++ nonce_source n ++ post /\\ "
      "sep_head pre /\\ sep_tail post"),
+    ("policy_parses",
+     "forall (r : csp_rule) (nonce : option bytes) (v : bytes), wf_rule r -> wf_nonce nonce -> to_header_nonce r nonce = Some "
+     "v -> parse_policy v = spec_policy r nonce"),
+    ("policy_emitted_iff",
+     "forall (r : csp_rule) (nonce : option bytes), length (fst r) = 27%nat -> (to_header_nonce r nonce = None -> spec_policy "
+     "r nonce = []) /\\ (forall v, to_header_nonce r nonce = Some v -> spec_policy r nonce <> [])"),
+    ("policy_nonce_directive",
+     "forall (r : csp_rule) (n d : bytes), length (fst r) = 27%nat -> hv_to_str_ok n = true -> In d nonce_directives -> exists "
+     "vals, In ([d], vals) (combine directive_names (fst r)) /\\ In (d, (match vals with [] => [SELF] | _ => vals end) ++ "
+     "[nonce_source n]) (spec_policy r (Some n))"),
+    ("policy_nonce_once",
+     "forall (n : bytes) (vals : list bytes), hv_to_str_ok n = true -> ~ In (nonce_source n) vals -> count_occ (list_eq_dec "
+     "N.eq_dec) (spec_sources true (Some n) vals) (nonce_source n) = 1%nat"),
     ("nonce_same_in_body_and_policy",
-     "forall (hist : list (bytes * csp_rule)) (rules : ruleset csp_rule) (server path : bytes) (rng : nat -> bytes) "
-     "(handler : page) (rule : csp_rule) (k : nat), rs_reach hist rules -> resolve hist path = Some rule -> "
-     "let reply := nonce_reply (rng k) handler in "
-     "h_all H_CSP (package_chain rules server path (pg_headers reply)) = "
-     "match to_header_nonce rule (Some (rng k)) with Some v => [v] | None => h_all H_CSP (pg_headers handler) end /\\ "
-     "exists ps, Forall wf_piece ps /\\ greedy ps /\\ pg_body handler = render (fun v => v) ps /\\ "
-     "pg_body reply = render (fun _ => rng k) ps"),
+     "forall (hist : list (bytes * csp_rule)) (rules : ruleset csp_rule) (server path : bytes) (rng : nat -> bytes) (handler : "
+     "page) (rule : csp_rule) (k : nat), rs_reach hist rules -> resolve hist (csp_path path) = Some rule -> let reply := "
+     "nonce_reply (rng k) handler in h_all H_CSP (package_chain rules server path (pg_headers reply)) = match to_header_nonce "
+     "rule (Some (rng k)) with Some v => [v] | None => h_all H_CSP (pg_headers handler) end /\\ exists ps, Forall wf_piece ps "
+     "/\\ greedy ps /\\ pg_body handler = render (fun v => v) ps /\\ pg_body reply = render (fun _ => rng k) ps"),
     ("nonce_not_cached",
-     "forall (rng : nat -> bytes) (handler : page) (n : nat), "
-     "page_history nonce_rewrite rng true handler n {| st_calls := O; st_cache := None |} = "
-     "Ok ({| st_calls := n; st_cache := None |}, map (fun k => nonce_reply (rng k) handler) (seq 1 n))"),
+     "forall (guard : bool) (rng : nat -> bytes) (handler : page) (n : nat), page_history guard nonce_rewrite rng [DNonce] "
+     "handler n pstate0 = Ok ({| st_calls := n; st_draws := n; st_cache := None |}, map (fun k => nonce_reply (rng k) handler) "
+     "(seq 1 n))"),
     ("nonce_not_admitted",
      "forall (rewrite : bytes -> bytes -> outcome bytes) (n : bytes) (p p' : page), nonce_present rewrite n p = Ok p' -> "
      "pg_pref p' = SNone /\\ forall cache_on m status compress, Cache.may_store cache_on m (fat_of status compress p') = false"),
     ("nonce_fresh_per_response",
-     "forall (rng : nat -> bytes) (handler : page) (n i j : nat), (forall a b, a <> b -> rng a <> rng b) -> i <> j -> "
-     "(i < n)%nat -> (j < n)%nat -> forall st out, "
-     "page_history nonce_rewrite rng true handler n {| st_calls := O; st_cache := None |} = Ok (st, out) -> "
-     "exists ri rj, nth_error out i = Some ri /\\ nth_error out j = Some rj /\\ "
-     "h_get H_NONCE (pg_headers ri) = Some (rng (S i)) /\\ h_get H_NONCE (pg_headers rj) = Some (rng (S j)) /\\ "
-     "rng (S i) <> rng (S j)"),
+     "forall (guard : bool) (rng : nat -> bytes) (handler : page) (n i j : nat), (forall a b, a <> b -> rng a <> rng b) -> i "
+     "<> j -> (i < n)%nat -> (j < n)%nat -> forall st out, page_history guard nonce_rewrite rng [DNonce] handler n pstate0 = "
+     "Ok (st, out) -> exists ri rj, nth_error out i = Some ri /\\ nth_error out j = Some rj /\\ h_get H_NONCE (pg_headers ri) "
+     "= Some (rng (S i)) /\\ h_get H_NONCE (pg_headers rj) = Some (rng (S j)) /\\ rng (S i) <> rng (S j)"),
+    ("nonce_not_cached_any_line",
+     "forall (rewrite : bytes -> bytes -> outcome bytes) (rng : nat -> bytes) (line : list directive) (handler : page) (n : "
+     "nat) (st : pstate) (out : list page), nonce_of handler = None -> page_history true rewrite rng line handler n pstate0 = "
+     "Ok (st, out) -> (forall p, st_cache st = Some p -> nonce_of p = None) /\\ ((forall a b, a <> b -> rng a <> rng b) -> "
+     "forall i j ri rj x y, i <> j -> nth_error out i = Some ri -> nth_error out j = Some rj -> nonce_of ri = Some x -> "
+     "nonce_of rj = Some y -> x <> y)"),
+    ("nonce_line_never_admitted",
+     "forall (rewrite : bytes -> bytes -> outcome bytes) (rng : nat -> bytes) (line : list directive) (k k' : nat) (p p' : "
+     "page), present_chain true rewrite rng line k p = Ok (k', p') -> nonce_of p' <> None -> pg_pref p' = SNone"),
+    ("nonce_line_v0_refuted",
+     "(exists r, page_history false nonce_rewrite sym_nonce [DNonce; DCache (Some SFull)] line_v0_handler 2 pstate0 = Ok ({| "
+     "st_calls := 1; st_draws := 1; st_cache := Some r |}, [r; r]) /\\ nonce_of r = Some (sym_nonce 1)) /\\ (exists r1 r2, "
+     "page_history true nonce_rewrite sym_nonce [DNonce; DCache (Some SFull)] line_v0_handler 2 pstate0 = Ok ({| st_calls := "
+     "2; st_draws := 2; st_cache := None |}, [r1; r2]) /\\ nonce_of r1 = Some (sym_nonce 1) /\\ nonce_of r2 = Some (sym_nonce "
+     "2))"),
     ("internal_header_hidden",
-     "forall (rules : ruleset csp_rule) (server path : bytes) (h : headers), "
-     "~ In H_NONCE (map fst (package_chain rules server path h))"),
+     "forall (rules : ruleset csp_rule) (server path : bytes) (h : headers), ~ In H_NONCE (map fst (package_chain rules server "
+     "path h))"),
     ("internal_header_v0_refuted",
-     "h_all H_NONCE (package_chain_v0 [] (B \"S\") (B \"/x\") [(H_NONCE, B \"n\")]) = [B \"n\"] /\\ "
-     "h_all H_NONCE (package_chain [] (B \"S\") (B \"/x\") [(H_NONCE, B \"n\")]) = []"),
+     "h_all H_NONCE (package_chain_v0 [] (B \"S\") (B \"/x\") [(H_NONCE, B \"n\")]) = [B \"n\"] /\\ h_all H_NONCE "
+     "(package_chain [] (B \"S\") (B \"/x\") [(H_NONCE, B \"n\")]) = []"),
     ("always_headers",
-     "forall (hist : list (bytes * csp_rule)) (rules : ruleset csp_rule) (server path : bytes) (h : headers), "
-     "rs_reach hist rules -> "
-     "h_all H_CSP (package_chain rules server path h) = spec_csp hist path h /\\ "
-     "h_all H_REFERRER (package_chain rules server path h) = spec_referrer h /\\ "
-     "h_all H_SERVER (package_chain rules server path h) = [server] /\\ "
-     "h_all H_NONCE (package_chain rules server path h) = []"),
+     "forall (hist : list (bytes * csp_rule)) (rules : ruleset csp_rule) (server path : bytes) (h : headers), rs_reach hist "
+     "rules -> h_all H_CSP (package_chain rules server path h) = spec_csp hist path h /\\ h_all H_REFERRER (package_chain "
+     "rules server path h) = spec_referrer h /\\ h_all H_SERVER (package_chain rules server path h) = [server] /\\ h_all "
+     "H_NONCE (package_chain rules server path h) = []"),
+    ("always_headers_flags",
+     "forall (hist : list (bytes * csp_rule)) (rules : ruleset csp_rule) (platform override : bool) (server path : bytes) (h : "
+     "headers), rs_reach hist rules -> h_all H_CSP (package_chain_cfg (mkCfg true true true platform override) rules server "
+     "path h) = spec_csp hist path h /\\ h_all H_REFERRER (package_chain_cfg (mkCfg true true true platform override) rules "
+     "server path h) = spec_referrer h /\\ h_all H_SERVER (package_chain_cfg (mkCfg true true true platform override) rules "
+     "server path h) = spec_server platform override server h /\\ h_all H_NONCE (package_chain_cfg (mkCfg true true true "
+     "platform override) rules server path h) = []"),
+    ("always_policy",
+     "forall (hist : list (bytes * csp_rule)) (rules : ruleset csp_rule) (platform override : bool) (server path : bytes) (h : "
+     "headers), rs_reach hist rules -> Forall (fun e => wf_rule (snd e)) hist -> wf_nonce (h_get H_NONCE h) -> map "
+     "parse_policy (h_all H_CSP (package_chain_cfg (mkCfg true true true platform override) rules server path h)) = "
+     "spec_csp_parsed hist path h"),
+    ("csp_raw_path_refuted",
+     "h_all H_CSP (package_chain_raw (rs_build rs_add raw_hist) (B \"S\") (B \"/%75c/evil.html\") []) = [B \"default-src "
+     "'self'; style-src 'self' 'unsafe-inline'\"] /\\ spec_csp raw_hist (B \"/%75c/evil.html\") [] = [B \"script-src 'none'\"] "
+     "/\\ h_all H_CSP (package_chain (rs_build rs_add raw_hist) (B \"S\") (B \"/%75c/evil.html\") []) = [B \"script-src "
+     "'none'\"]"),
     ("always_headers_send",
-     "forall (rewrite : bytes -> bytes -> outcome bytes) (hist : list (bytes * csp_rule)) (rules : ruleset csp_rule) "
-     "(server : bytes) (hs : list chandler), rs_reach hist rules -> "
-     "forall rs st out, conn_run rewrite (fun p h => package_chain rules server p h) hs st rs = Ok out -> "
-     "Forall (fun rep => h_all H_SERVER (rp_headers rep) = [server] /\\ h_all H_NONCE (rp_headers rep) = [] /\\ "
-     "h_all H_REFERRER (rp_headers rep) <> [] /\\ "
-     "exists p h, h_all H_CSP (rp_headers rep) = spec_csp hist p h /\\ h_all H_REFERRER (rp_headers rep) = spec_referrer h) out"),
+     "forall (guard : bool) (rewrite : bytes -> bytes -> outcome bytes) (hist : list (bytes * csp_rule)) (rules : ruleset "
+     "csp_rule) (platform override : bool) (server : bytes) (hs : list chandler), rs_reach hist rules -> forall rs st out, "
+     "conn_run guard rewrite (package_chain_cfg (mkCfg true true true platform override) rules server) hs st rs = Ok out -> "
+     "Forall2 (fun r rep => exists h, h_all H_CSP (rp_headers rep) = spec_csp hist (prime_path (cr_path r)) h /\\ h_all "
+     "H_REFERRER (rp_headers rep) = spec_referrer h /\\ h_all H_SERVER (rp_headers rep) = spec_server platform override server "
+     "h /\\ h_all H_NONCE (rp_headers rep) = []) rs out"),
+    ("send_policy_of_request_rule",
+     "forall (hist : list (bytes * csp_rule)) (path : bytes) (h : headers) (rule : csp_rule) (v0 : bytes), resolve hist "
+     "(csp_path path) = Some rule -> to_header_nonce rule None = Some v0 -> exists v, to_header_nonce rule (h_get H_NONCE h) = "
+     "Some v /\\ spec_csp hist path h = [v]"),
 ]
